@@ -26,7 +26,7 @@ func (c08) Meta() fw.Meta {
 	return fw.Meta{
 		ID: "C08",
 		Rule: "case = one scenario run through the real binary: source tree of 1-5 files (1-3 archives, sparse contents with NaN holes, coarser archives that are NOT the aggregate of the finer ones) and a destination in one of the states {absent, never written, exact copy, copy with finer slots perturbed while coarser archives already match, copy perturbed everywhere, unrelated contents}; " +
-			"window in {default, narrow, in the past, degenerate, beyond the finest retention}; -archive all or one id; -copy-nan on/off; single-file or glob mode; also layout mismatch and an empty source with an absent destination. " +
+			"window in {default, narrow, in the past, degenerate, beyond the finest retention}; -archive all or one id; -copy-nan on/off; single-file or glob mode (with a symlinked source file and non-canonical spellings of the base directory); also layout mismatch and an empty source with an absent destination. " +
 			"oracle (library fetches at the clock the command printed in its now: line): exit 0 => for every selected archive and slot of the window src has a value => dest equals it (and src NaN => dest NaN with -copy-nan); source bytes unchanged; absent destination created with exactly the requested header even when nothing is copied; " +
 			"layout mismatch => exit != 0 and destination byte-identical; repeating the command leaves the destination bytes unchanged; with -copy-nan a following diff over the same window/archives exits 0; glob: every matched relative path exists under the destination. " +
 			"non-trivial = scenario in which at least one slot was actually copied and at least one already-equal slot had to survive; distinct by scenario parameters.",
@@ -34,7 +34,7 @@ func (c08) Meta() fw.Meta {
 			"CLI commands read the wall clock; the oracle uses the now: value the command printed (per file), so the comparison is exact at that instant",
 			"value equality is numeric (+0 == -0), as the command's own difference test; NaN equals NaN",
 		},
-		Obligations: []string{"copies_ok", "slots_compared", "slots_copied", "coarser_matched_finer_differed", "dest_absent_created", "dest_absent_nothing_to_copy", "narrow_window", "window_beyond_finest_retention", "single_archive_selection", "glob_mode_3plus_files", "copy_nan_mode", "layout_mismatch_rejected", "repeat_idempotent", "diff_after_copy_clean", "source_unchanged_checks"},
+		Obligations: []string{"copies_ok", "slots_compared", "slots_copied", "coarser_matched_finer_differed", "dest_absent_created", "dest_absent_nothing_to_copy", "narrow_window", "window_beyond_finest_retention", "single_archive_selection", "glob_mode_3plus_files", "copy_nan_mode", "layout_mismatch_rejected", "repeat_idempotent", "diff_after_copy_clean", "source_unchanged_checks", "symlinked_source_in_glob", "unclean_base_spelling"},
 		Workers:     12,
 	}
 }
@@ -138,7 +138,19 @@ func (c08) Run(c *fw.Ctx) {
 			cont = genContent(r, l, now, 0) // empty source: nothing to copy
 		}
 		srcContents[rel] = cont
-		writeFixture(filepath.Join(srcBase, rel), l, cont, now)
+		if sc.Glob && i == 1 {
+			// a matched source that is a symbolic link to a whisper file stored elsewhere
+			real := filepath.Join(dir, "real", fmt.Sprintf("r%d.wsp", i))
+			writeFixture(real, l, cont, now)
+			mustMkdir(filepath.Dir(filepath.Join(srcBase, rel)))
+			os.Remove(filepath.Join(srcBase, rel))
+			if err := os.Symlink(real, filepath.Join(srcBase, rel)); err != nil {
+				panic(err)
+			}
+			c.Count("symlinked_source_in_glob", 1)
+		} else {
+			writeFixture(filepath.Join(srcBase, rel), l, cont, now)
+		}
 		dp := filepath.Join(destBase, rel)
 		switch sc.DestState {
 		case "absent":
@@ -193,8 +205,23 @@ func (c08) Run(c *fw.Ctx) {
 			srcArg = "*" // does not match sub/ files; use a second pattern below
 		}
 	}
+	// non-canonical spellings of the source base in glob mode
+	srcBaseArg := srcBase
+	if sc.Glob {
+		switch c.Index % 4 {
+		case 1:
+			srcBaseArg = srcBase + "/"
+		case 2:
+			srcBaseArg = srcBase + "/."
+		case 3:
+			srcBaseArg = filepath.Dir(srcBase) + "//" + filepath.Base(srcBase)
+		}
+		if srcBaseArg != srcBase {
+			c.Count("unclean_base_spelling", 1)
+		}
+	}
 	buildArgs := func(srcPattern string) []string {
-		args := []string{"copy", "-src-base", srcBase, "-src", srcPattern, "-dest-base", destBase,
+		args := []string{"copy", "-src-base", srcBaseArg, "-src", srcPattern, "-dest-base", destBase,
 			"-agg-method", model.MethodNames[l.Method], "-x-files-factor", strconv.FormatFloat(float64(l.Xff), 'g', -1, 32), "-retentions", l.RetentionString(),
 			"-archive", strconv.Itoa(sc.Archive)}
 		if sc.Until != 0 {
